@@ -5,4 +5,6 @@
 #include "traversal.arena.h"
 #include "traversal.loops.h"
 #include HWLOC_VERIF_SRC_TRAVERSAL
+/* external to traversal.c (pci-common.c): only its result pointer is passed on to snprintf */
+const char *hwloc_pci_class_string(unsigned short class_id) { static const char verif_class[] = "class"; (void)class_id; return verif_class; }
 #include "traversal.harness.c"
